@@ -74,6 +74,7 @@ type loopInfo struct {
 
 // Ctx verifies one function.
 type Ctx struct {
+	loopNotes map[string]bool // loop clauses that could not be stated (paths through those loops are undecided)
 	V             *Verifier
 	Fn            *ssa.Function
 	FC            *FuncContract
@@ -284,7 +285,22 @@ func (c *Ctx) oblige(st *State, fr *Frame, kind, detail, label string, pos token
 		q.Status = "trivial"
 	}
 	o.Queries = append(o.Queries, q)
+	if (kind == "atcall" || kind == "atreturn") && !c.ownClause(fr, props) {
+		// a call-site / return assertion that belongs to another property only is reported by that property's check; it
+		// is not taken for granted here, so that it cannot mask a clause of this property that says the same thing
+		return
+	}
 	st.assume(goal)
+}
+
+// ownClause: does a clause with these tags belong to the property being checked? (an untagged clause belongs to the
+// properties of the function header)
+func (c *Ctx) ownClause(fr *Frame, props []string) bool {
+	eff := props
+	if eff == nil && fr != nil && fr.fc != nil {
+		eff = fr.fc.Props
+	}
+	return len(eff) == 0 || c.V.curProp == "" || hasProp(eff, c.V.curProp)
 }
 
 // nameObligations assigns stable names: fn/kind@detail#label or #ordinal (source order)
